@@ -24,6 +24,7 @@ fn main() {
         "alu-check" => exhaust::alu_check(&args[2]),
         "decode-check" => exhaust::decode_check(&args[2], args.get(3).map(|x| x == "mac").unwrap_or(false)),
         "nextaddr-check" => exhaust::nextaddr_check(&args[2], args.get(3).map(|x| x == "sets").unwrap_or(false)),
+        "irstep-check" => exhaust::irstep_check(&args[2]),
         "muldiv-term" => exhaust::muldiv_term(),
         "scenario" => scenario::run_script(&args[2], &args[3]),
         "bus-sig-check" => bussig::check(&args[2]),
